@@ -71,6 +71,17 @@ func (m *Model) After(op Op, res Result, bufferedBefore, sizeBefore int) *Viol {
 		} else if m.Accepted-m.MsgStart > sizeBefore {
 			m.fits = false
 		}
+	case ReadFromErr:
+		// the source fails after delivering res.K bytes: they were accepted (reported in n)
+		// and must leave with the message; the source's error is passed on.
+		if res.Err != xport.ErrInjected || res.N != int64(res.K) {
+			return v("ret/ReadFromErr", "ReadFrom from a source failing after %d bytes returned (%d, %v), want (%d, the source's error)", res.K, res.N, res.Err, res.K)
+		}
+		m.Accepted += int(res.N)
+		if res.N > 0 {
+			m.MsgOpen = true
+		}
+		m.plainOnly, m.writeOnly = false, false
 	case WriteThrough:
 		m.plainOnly, m.writeOnly = false, false
 		if bufferedBefore != 0 {
@@ -154,7 +165,7 @@ func (m *Model) After(op Op, res Result, bufferedBefore, sizeBefore int) *Viol {
 		if m.NoFlush && len(fresh) > 0 {
 			return v("noflush/write-sends", "Write sent %d frame(s) although flushing is disabled", len(fresh))
 		}
-	case ReadFrom:
+	case ReadFrom, ReadFromErr:
 		if m.NoFlush && len(fresh) > 0 {
 			return v("noflush/readfrom-sends", "ReadFrom sent %d frame(s) although flushing is disabled", len(fresh))
 		}
